@@ -15,8 +15,9 @@
      compat c o    o is a write of c itself (with or without a failing rename), a write of a logger whose name is not prefix-related to
                    c's, or a rule dump (c's name not prefix-related to "AuthorizationRules_")
      trace d ops   the directory after EVERY step of the history ops started on d
-   A restart is not an operation: RollingLogger and write_all keep no state in memory, so "after a
-   restart on the files left by the earlier run" is "the next operation on the same directory". *)
+   A restart is the explicit operation [ORestart c] (model of service::setup_loggers /
+   RollingLogger::create_new: no file-system access, nothing cached), admitted by compat and dcompat:
+   every history theorem below quantifies over writes AND restarts. *)
 From GPA Require Import Disk DiskProofs.
 
 (* -------- rolling logs: file count -------- *)
@@ -37,6 +38,29 @@ Theorem C19_log_invariant_step : forall (c : logcfg) (o : op) (d : dir),
   wf_cfg c -> compat c o -> Inv c d -> Inv c (step d o).
 Proof. exact step_inv. Qed.
 Print Assumptions C19_log_invariant_step.
+
+(* -------- restarts; the agent's two loggers in their shared directory -------- *)
+Theorem C19_restart_is_noop : forall (c : logcfg) (d : dir), step d (ORestart c) = d.
+Proof. exact restart_noop. Qed.
+Print Assumptions C19_restart_is_noop.
+
+(* every history of writes (also under a failing rename / a failing listing) and RESTARTS of the
+   agent logger and the connection logger and of rule dumps, from every directory that satisfies the
+   invariant of both (the empty one does: C19_agent_from_empty): after every step both counts are
+   within the configured 5 and every file of either log is within 10 MiB + its last write *)
+Theorem C19_agent_two_loggers_history : forall (ops : list op) (d0 : dir),
+  Inv agent_logger d0 -> Inv connection_logger d0 -> Forall agent_op ops ->
+  Forall (fun d => lcount agent_logger d <= lmax_count agent_logger /\
+                   lcount connection_logger d <= lmax_count connection_logger /\
+                   (forall e, In e (lfiles agent_logger d) \/ In e (lfiles connection_logger d) ->
+                              esize e <= Consts.max_log_file_size + elast e))
+         (trace d0 ops).
+Proof. exact agent_two_loggers_history. Qed.
+Print Assumptions C19_agent_two_loggers_history.
+
+Theorem C19_agent_from_empty : Inv agent_logger [] /\ Inv connection_logger [].
+Proof. exact agent_from_empty. Qed.
+Print Assumptions C19_agent_from_empty.
 
 (* -------- rolling logs: no file exceeds the size limit by more than one write -------- *)
 (* [elast e] is the number of bytes of the last write appended to e (C19_log_write_effect) *)
@@ -157,6 +181,43 @@ Theorem C19_dumps_oldest_first : forall (maxc : N) (ts : bytes) (sz : N) (d : di
   bytes_ltb k r = false.
 Proof. exact write_all_oldest. Qed.
 Print Assumptions C19_dumps_oldest_first.
+
+(* oldest first over the AGE order.  The code's name is <fixed prefix><time stamp><suffix>
+   (C19_dump_name_is_timestamp_prefixed, from the regenerated constants), so for fixed-width stamps name
+   order IS stamp order, and no dump that survives a write_all is older than one it removed: the removed
+   set is an initial segment of the age order.  Chronological = stamp order is the clock's business
+   (monotone clock). *)
+Theorem C19_dump_name_is_timestamp_prefixed : forall ts : bytes,
+  dump_name ts = Consts.rules_dump_search_prefix ++ colon_to_dot ts ++ Consts.rules_dump_search_suffix.
+Proof. exact dump_name_eq. Qed.
+Print Assumptions C19_dump_name_is_timestamp_prefixed.
+
+Theorem C19_dump_name_order_is_age_order : forall t1 t2 : bytes,
+  length t1 = length t2 ->
+  bytes_ltb (dump_name t1) (dump_name t2) = bytes_ltb (colon_to_dot t1) (colon_to_dot t2).
+Proof. exact dump_name_order. Qed.
+Print Assumptions C19_dump_name_order_is_age_order.
+
+Theorem C19_dumps_oldest_first_by_age : forall (maxc : N) (ts : bytes) (sz : N) (d : dir) (tr tk : bytes),
+  length tr = length tk ->
+  let d' := write_all maxc ts sz d in
+  In (dump_name tr) (names d) -> ~ In (dump_name tr) (names d') ->
+  In (dump_name tk) (names d') -> dump_name tk <> dump_name ts ->
+  bytes_ltb (colon_to_dot tk) (colon_to_dot tr) = false.
+Proof. exact dumps_oldest_by_age. Qed.
+Print Assumptions C19_dumps_oldest_first_by_age.
+
+(* why the hypothesis is needed: the same trimming with a tag in front of the stamp (seeded change s1)
+   removes the dump written third and keeps the one written second *)
+Theorem C19_tagged_names_oldest_first_refuted :
+  exists tag1 tag2 d,
+    let w := fun tag ts d => write_all_with (dump_name_tagged tag ts) 2 7 d in
+    d = w tag2 [52] (w tag2 [51] (w tag1 [50] (w tag1 [49] []))) /\
+    ~ In (dump_name_tagged tag2 [51]) (names d) /\
+    In (dump_name_tagged tag1 [50]) (names d) /\
+    bytes_ltb [50] [51] = true.
+Proof. exact tagged_names_break_oldest_first. Qed.
+Print Assumptions C19_tagged_names_oldest_first_refuted.
 
 Theorem C19_dump_written : forall (maxc : N) (ts : bytes) (sz : N) (d : dir),
   dfind (dump_name ts) (write_all maxc ts sz d) = Some (dump_name ts, sz, 0) /\
